@@ -31,6 +31,19 @@ var ghostIndexCount int // hint items handed to hintMgr.setItem
 var ghostHintCount int  // items delivered by hintFileReader.next
 var ghostApplyCount int // items applied to the tree - counted by the step assertions lemmaSlotSet / lemmaSlotGone
 
+// Decompress() has been applied to the payload (set by an assumed clause of Payload.Decompress):
+// the value hash of a rebuilt hint must be taken from the payload after that call - the bit-level
+// statement "hash of the uncompressed bytes" is C10's and cannot be used from this math-mode loop
+var ghostDecompressDone map[*Payload]bool
+
+func lemmaHashAfterDecompress(p *Payload) bool { return true }
+
+//@ func lemmaHashAfterDecompress
+//@   props C02 C10
+//@   ints math
+//@   requires ghostDecompressDone[p]
+//@   ensures result0
+
 // ---------- assumed interfaces ----------
 
 //@ func (h *hintMgr) setItem
@@ -97,10 +110,11 @@ func lemmaHintOfRecord(item *HintItem, rec *Record, khash uint64, ver int32, off
 //@   reliable_io
 //@   unreachable_ok the error returns (opening or reading the data file) are dead under reliable_io
 //@   opaque specValidAt specCRCByte specCRCFold specCRCFoldF
-//@   requires bkt != nil && bkt.datas != nil && bkt.hints != nil && 0 <= chunkID && chunkID < MAX_NUM_CHUNK && mcConfOK() && !ioFailed() && ghostScanEnd != nil
+//@   requires bkt != nil && bkt.datas != nil && bkt.hints != nil && 0 <= chunkID && chunkID < MAX_NUM_CHUNK && mcConfOK() && !ioFailed() && ghostScanEnd != nil && ghostDecompressDone != nil
 //@   requires int(start)%256 == 0
 //@   modifies *
 //@   ensures err == nil ==> ghostIndexCount-old(ghostIndexCount) == ghostScanCount-old(ghostScanCount)
+//@   ghost after Getvhash#1: lemmaHashAfterDecompress(p)
 //@   ghost after setItem#1: lemmaHintOfRecord(item, rec, getKeyHash(rec.Key), rec.Payload.Ver, offset)
 //@   loop 1 invariant !ioFailed() && r != nil && r.fd != nil && r.rbuf != nil && streamSync(r) && int(r.offset)%256 == 0 && len(r.maxBodyBuf) == 0 && int64(cap(r.maxBodyBuf)) >= config.MCConf.BodyMax && fileSize(r.fd) <= 1<<32-512 && err == nil
 //@   loop 1 invariant ghostIndexCount-old(ghostIndexCount) == ghostScanCount-old(ghostScanCount)
